@@ -24,6 +24,10 @@ def reset_stage_for_retry(stage: StageExecution) -> None:
     # split's recorded branch activations belong to the previous iteration.
     for key in ("_join_fired", "_completed_branches", "_activated_branches", "_planned", "_skipped_branches"):
         stage.context.pop(key, None)
+    # The signal that released the previous activation has been consumed: the
+    # next activation of a stage that waits for a signal needs one of its own.
+    for key in ("_signal_name", "_signal_data"):
+        stage.context.pop(key, None)
     # A REDIRECT completion still in flight for the previous iteration is stale
     # from here on (see CompleteTaskHandler).
     if "_pending_redirect_task" in stage.context:
